@@ -137,7 +137,7 @@ class Backend(ABC):
     )
     default_format: ClassVar[str] = "default"
     collect_errors: bool = False
-    errors: list[tuple[SigmaRule, SigmaError]]
+    errors: list[tuple[SigmaRule | SigmaCorrelationRule, SigmaError]]
 
     # Perform finalization on all queries used in a correl
     finalize_correlation_subqueries = False
